@@ -89,10 +89,11 @@ def default_trigger(ty: Any, values: list, d: Any) -> str:
         return "py_equal_values"  # D12
     if None in values and ty == "string":
         # the member refers to the wrapper `E = Optional[EEnum]` (a root model in pydantic output). D27: dataclass output never
-        # resolves the default. C09-F3: pydantic output validates the default through the root model
-        # (`Field(default_factory=lambda: E.parse_obj(d))`) only when it is truthy (`elif self.default and …` in
-        # model/pydantic/base_model.py DataModelField.__str__): a falsy default ("") stays the raw value
-        return "nullable_wrapper" if d else "nullable_wrapper_falsy_default"
+        # resolves the default. Pydantic output validates every default that is not None through the root model
+        # (`Field(default_factory=lambda: E.parse_obj(d))`, `elif self.default is not None and …` in model/pydantic/base_model.py
+        # DataModelField.__str__) and must hold — also for the falsy default "" (C09-F3, repaired: the guard was `self.default and …`;
+        # falsy defaults are no class of their own any more)
+        return "nullable_wrapper"
     pos = documented_find(ty, values, d)
     if pos is None:
         return "find_escaped_not_repr"  # D24: neither comparison matches the entry itself
